@@ -15,6 +15,7 @@ import SpiceEv.Cmd.Costs
 import SpiceEv.Cmd.ScheduleGen
 import SpiceEv.Cmd.Battery
 import SpiceEv.Cmd.Strategies
+import SpiceEv.Cmd.RuleSpec
 import SpiceEv.Cmd.Distributed
 import SpiceEv.Cmd.StratDistributed
 import SpiceEv.Cmd.FlexBand
@@ -34,6 +35,7 @@ def allHandlers : List (String × Handler) :=
   ++ Cmd.Report.handlers
   ++ Cmd.Events.handlers
   ++ Cmd.Strategies.handlers
+  ++ Cmd.RuleSpec.handlers
   ++ Cmd.Distributed.handlers
   ++ Cmd.StratDistributed.handlers
   ++ Cmd.FlexBand.handlers
